@@ -517,6 +517,28 @@ impl Units {
                     acc.violation("uomConvert unknown-unit-accepted", json!({"from": a, "to": b}), "Fail".into(), got.show());
                 }
             }
+            // near misses of a known spelling (a letter more, a letter less, doubled) are unknown units
+            if i % 6 == 0 {
+                let norm = |x: &str| x.trim().to_lowercase().trim_matches('°').to_string();
+                let known: Vec<String> = self.spell.iter().map(|(_, x)| norm(x)).collect();
+                let mut near: Vec<String> = vec![format!("{}s", s), format!("{}S", s), format!("{}x", s), format!("x{}", s), format!("{}{}", s, s), format!("{}.", s), format!("{} s", s)];
+                if s.chars().count() > 1 {
+                    near.push(s.chars().skip(1).collect());
+                    near.push(s.chars().take(s.chars().count() - 1).collect());
+                }
+                for m in near {
+                    if known.contains(&norm(&m)) || norm(&m).is_empty() {
+                        continue;
+                    }
+                    for (a, b) in [(m.as_str(), s), (s, m.as_str())] {
+                        let got = Self::conv(&V::Dbl(1.5), a, b);
+                        acc.eval();
+                        if !got.is_fail() {
+                            acc.violation("uomConvert near-miss-of-a-unit-name-accepted", json!({"from": a, "to": b}), "Fail".into(), got.show());
+                        }
+                    }
+                }
+            }
             // an unknown unit on both sides (equal, differing in case or blanks, or two unknowns)
             if i / 6 == 0 {
                 let unknown = ["", "parsec", "kgg", "lightyear", "°", "Parsec", " parsec", "PARSEC"];
@@ -590,7 +612,7 @@ pub fn replay_families(t: Tier) -> Vec<Family<'static>> {
 
 pub fn run(t: Tier) -> i32 {
     let mut rep = Report::new(ID, t, "exploration");
-    rep.rule = "accessors: every boundary instant (year 1, 1900/2000/2024 leap edges, epoch, US and EU DST transition seconds, 9999, chrono's ends) x 4 sub-second parts x every zone of the tz database (quick: every 8th plus the unusual ones) x the 10 accessors, against own civil arithmetic from days-since-epoch with the zone offset looked up in chrono-tz, plus the zone-less form; unknown zones must fail; duration accessors over signed boundary durations; laws: (t+d)-d==t, (t1-t2)+t2==t1, d1+d2-d2==d1, chronological order and exact results over all pairs, out-of-range results must fail; units: every accepted spelling pair x 8 magnitudes x int/uint/double (identity, exact definition within 2e-6, inverse), unknown units, transitivity over all unit triples. Non-trivial = every case; distinct by index".to_string();
+    rep.rule = "accessors: every boundary instant (year 1, 1900/2000/2024 leap edges, epoch, US and EU DST transition seconds, 9999, chrono's ends) x 4 sub-second parts x every zone of the tz database (quick: every 8th plus the unusual ones) x the 10 accessors, against own civil arithmetic from days-since-epoch with the zone offset looked up in chrono-tz, plus the zone-less form; unknown zones must fail; duration accessors over signed boundary durations; laws: (t+d)-d==t, (t1-t2)+t2==t1, d1+d2-d2==d1, chronological order and exact results over all pairs, out-of-range results must fail; units: every accepted spelling pair x 8 magnitudes x int/uint/double (identity, exact definition within 2e-6, inverse), unknown units incl. every near miss of an accepted spelling (a letter more or less, doubled, a trailing point), transitivity over all unit triples. Non-trivial = every case; distinct by index".to_string();
     for f in replay_families(t) {
         rep.run_family(f);
     }
